@@ -726,11 +726,12 @@ def gen_c01(tier, seed):
     # firmware-saved NVRAM with each valid host-speed option (offset 2: 0..5; 5 = 300 baud, where a character takes
     # longer than the 20 ms key spacing), and a full window of line feeds (scrolling) before the typing starts
     bursts = [(2, 1000, 'burst', nb) for nb in (3, 4)] if tier == 'quick' else [(v, k, 'burst', nb) for v in (1, 2) for k in (250, 1000) for nb in (2, 3, 4)]
-    extra = [(2, 1000, 'opt5', 0), (2, 1000, 'blank', 130), (1, 1000, 'blank', 130), (1, 1000, 'traffic', 0), (2, 1000, 'traffic', 0)] if tier == 'quick' else \
-            [(v, k, 'traffic', 0) for v in (1, 2) for k in (250, 1000)] + \
+    extra = [(2, 1000, 'opt5', 0), (2, 1000, 'blank', 130), (1, 1000, 'blank', 130), (1, 1000, 'traffic', 2), (1, 1000, 'traffic', 25), (2, 1000, 'traffic', 2)] if tier == 'quick' else \
+            [(v, k, 'traffic', d) for v in (1, 2) for k in (250, 1000) for d in (1, 2, 5, 25)] + \
             [(2, k, 'opt%d' % o, 0) for o in range(6) for k in (250, 1000)] + [(v, k, 'blank', 130) for v in (1, 2) for k in (250, 1000, 4000)]
     for (v, k, nv, nlf) in [(a, b, c, 0) for (a, b, c) in combos] + extra + bursts:
         nlf_burst, nlf = (nlf, 0) if nv == 'burst' else (0, nlf)
+        nlf_traffic, nlf = (nlf, 0) if nv == 'traffic' else (0, nlf)
         t20 = max(1, 20000000 // k)          # steps per 20 ms of emulated time
         maxboot = 0x8000000
         ops = []
@@ -747,8 +748,8 @@ def gen_c01(tier, seed):
             # self-test puts the DUART in loop-back for a while, during the first 20 s of emulated time, which covers
             # the whole boot): the terminal must still become interactive; what it does with those bytes is not judged
             ops += ['rs:%x' % v, 'k:%x' % k]
-            for _b in range(800 if v == 1 else 80):
-                ops += ['qa:%x' % r.choice([0x20, 0x41, 0x0d, 0x55, 0xaa]), 'run:%x' % max(1, 25000000 // k)]
+            dense = nlf_traffic
+            ops += ['rq:%x:%x:55' % (20000000000 // k if v == 1 else 2000000000 // k, max(1, dense * 1000000 // k))]
             ops += ['bt:%x' % maxboot, settle, settle, 'dk', 'vr', 'vd']
         else:
             ops += ['rs:%x' % v, 'k:%x' % k, 'bt:%x' % maxboot, settle, 'dk', 'vr', 'vd']
